@@ -60,6 +60,8 @@ def main(scale):
         attempt(t + 'unknown label', lambda: c.intension(list(objs[:1]) + ['no such object']))
         attempt(t + 'unknown label (extension)', lambda: c.extension(['no such property']))
         attempt(t + 'unknown format', lambda: c.tostring('spam'))
+        attempt(t + 'fromdict without keys', lambda: Context.fromdict({}))
+        attempt(t + 'fromdict with one key', lambda: Context.fromdict({'properties': list(props)}))
         attempt(t + 'unknown format (definition)', lambda: c.definition().tostring('nope'))
         # several unknown labels: WHICH one the KeyError names comes out of set(members) inside bitsets' frommembers
         # (known finding D7: compared separately in props/c17.py)
